@@ -562,18 +562,32 @@ def check_result_layout(ctx: Ctx, rule="CLASSSEL"):
 
 
 def check_copy_filter_strict(ctx: Ctx, rule="COPYALL"):
+    """the filter of Emulsion.copy as a truth table: a member is kept iff its radius exceeds min_radius (equal: dropped, below: dropped)"""
+    from .collections import _eval_radius_filter
     m = ctx.model
     q = f"{EM}.Emulsion.copy"
     fi = m.func(q)
-    tests = [c for c in ast.walk(fi.node) if isinstance(c, ast.Compare) and "min_radius" in names_in(c) and len(c.ops) == 1]
+    tests = []
+    for n in ast.walk(fi.node):
+        if isinstance(n, ast.comprehension):
+            tests += [(t, False) for t in n.ifs if "min_radius" in names_in(t)]
+        elif isinstance(n, ast.If) and "min_radius" in names_in(n.test):
+            tests.append((n.test, any(isinstance(x, ast.Continue) for x in ast.walk(n))))
     if not tests:
         ctx.undecided(rule, q + ":strict", fi, "no comparison with min_radius")
         return 0
-    c = tests[0]
-    txt = U(c).replace(" ", "")
-    ok = (isinstance(c.ops[0], ast.Gt) and txt.endswith(">min_radius")) or (isinstance(c.ops[0], ast.Lt) and txt.startswith("min_radius<"))
-    ctx.decide(ok, rule, q + ":strict", (fi, c), "droplets with exactly min_radius are removed (radius > min_radius is kept)",
-               f"`{U(c)}` keeps droplets whose radius equals min_radius: copy(min_radius=0) is documented to drop vanished droplets, the copy differs from the list model [d for d in e if d.radius > min_radius]")
+    t, inverted = tests[0]
+    table = {}
+    for label, r in (("below", 1.0), ("equal", 2.0), ("above", 3.0)):
+        v = _eval_radius_filter(t, r, {"min_radius": 2.0})
+        if v is None:
+            ctx.undecided(rule, q + ":strict", (fi, t), f"filter `{U(t)[:50]}` not understood")
+            return 0
+        table[label] = (not v) if inverted else bool(v)
+    ok = table == {"below": False, "equal": False, "above": True}
+    which = "equals" if table["equal"] else ("is below" if table["below"] else "exceeds")
+    ctx.decide(ok, rule, q + ":strict", (fi, t), "droplets with exactly min_radius are removed (only radius > min_radius is kept)",
+               f"`{U(t)}` {'keeps' if which != 'exceeds' else 'drops'} droplets whose radius {which} min_radius: copy(min_radius=0) is documented to drop vanished droplets, the copy differs from the list model [d for d in e if d.radius > min_radius]")
     return 1
 
 
